@@ -223,3 +223,6 @@ def _explainer_offset_replay(env, cfg):
         worst = max(worst, float(err / bound))
     env.claim('importance_error_independent_of_the_loss_offset', worst <= 1.0,
               detail=f"binary64 run with loss offsets up to 2^40: error / allowed bound = {worst:.3g}")
+
+
+META['explanation'] += ' Explainer level: two explained observations of IncrementalPFI / IncrementalSage with a symbolic common loss offset B: error bound independent of B. Objects with state the step harness does not inject are refused (exit 2).'
